@@ -67,11 +67,26 @@ def run_case(case, backend="main"):
         register(sg)
         return sg
 
+    def cls_id(sg):
+        if type(sg) is ExceptionSignal:
+            return 0
+        for k, v in classes.items():
+            if v is type(sg):
+                return k
+        return 999
+
+    def src_id(o):
+        for k, v in srcs.items():
+            if v is o:
+                return [k]
+        return []
+
     def register(sg):
         if id(sg) not in sid_of:
             sid_of[id(sg)] = st["nsig"]
             st["nsig"] += 1
             keep.append(sg)
+            log.append([20, sid_of[id(sg)], cls_id(sg), sg.priority, src_id(sg.source)])   # ESigNew
         return sid_of[id(sg)]
 
     def sig_of_entry(e):
@@ -153,7 +168,10 @@ def run_case(case, backend="main"):
 
         def process_signals(self, return_after=None):
             if return_after is None:
-                return super().process_signals()
+                log.append([10, [], 0])
+                super().process_signals()
+                log.append([11, [], 0])
+                return
             t = self._processed_signals._counter
             k = [c for c, v in list(classes.items()) + [(0, ExceptionSignal)] if v is return_after][0]
             log.append([10, [k], t])
@@ -193,8 +211,10 @@ def run_case(case, backend="main"):
                 loop.process_signals(cls_of(c[1][0]) if c[1] else None)
             elif op == 7:
                 loop.register_signal_source(src_of(c[1]))
+                log.append([22, c[1], loop._active_queue.qid])
             elif op == 8:
                 loop.register_signal_handler(cls_of(c[1]), handler_for(c[2]), c[3])
+                log.append([21, c[1], c[2], c[3]])
             elif op == 9:
                 do_cmds(c[2] if count < c[1] else c[3], hid, count)
             elif op == 10:
@@ -203,6 +223,7 @@ def run_case(case, backend="main"):
                 ext.append((c[1], c[2], c[3][0] if c[3] else None))
             elif op == 12:
                 loop.set_quit_callback(lambda a: log.append([13, a]), c[1])
+                log.append([23, c[1]])
             else:
                 raise AssertionError(op)
 
@@ -247,6 +268,7 @@ def run_case(case, backend="main"):
             App.initialize(event_loop=loop)
             # the framework's own handlers registered by App.initialize are for its own signal classes only
             for a in actions:
+                log.append([24])                         # ETop
                 try:
                     if a[0] == 0:
                         do_cmds(a[1:], None, 0)
